@@ -14,7 +14,9 @@ SPEC = {
              "repository, NotificationService, ServerAuthHandler) built from the world in the case string, and a second time with "
              "SenderId/ReceiverId/Token blanked; exhaustive matrix: every command type 0..130 x 5 connection identities (listen party, "
              "target party, stranger, registered-unauthenticated, never-handshaken) x claimed fields x request/response packet type x "
-             "named object (own / other party's / stranger's / empty / unknown id) x target client; plus random worlds (casts, owners, "
+             "named object (own / other party's / stranger's / empty / unknown id) x target client; claimed SenderId/ReceiverId/Token "
+             "range over numbers, garbage AND things that exist in the world (`@c<i>` the connection id of another — live, "
+             "authenticated — connection, `@m/@s/@k/@d` mapping ids, secret keys, codes, domain ids); plus random worlds (casts, owners, "
              "online sets, connections spread over two nodes); two-node matrix: two real SessionManagers (own client registry, executor, "
              "handlers) over shared storage joined by a BridgeManager on an in-memory broker: sender identity x claimed body "
              "target_client_id x where the mapping's real target is connected (same node / other node / nowhere) x bridge on/off; "
